@@ -128,7 +128,17 @@ UnwrapA == \E dst \in Reg, src \in Full : Call("unwrap", dst, <<src>>, UnwrapEnv
 WrapFam == WrapA \/ UnwrapA
 
 (* ---- obscure ------------------------------------------------------------------*)
-Targets(e) == AllDigests(e) \cup {Absent}
+(* targets: every digest that occurs, one that does not, and the digests that occur only INSIDE what a
+   compressed or (decryptable) encrypted element holds - those elements are opaque to elision and proofs *)
+RECURSIVE InnerDigests(_)
+InnerDigests(e) ==
+  CASE e[1] = "comp" -> IF e[4] = "ok" THEN AllDigests(e[3]) \cup InnerDigests(e[3]) ELSE {}
+    [] e[1] = "enc"  -> IF e[6] = "ok" THEN AllDigests(e[5]) \cup InnerDigests(e[5]) ELSE {}
+    [] e[1] = "node" -> InnerDigests(e[2]) \cup UNION {InnerDigests(a) : a \in e[3]}
+    [] e[1] = "assn" -> InnerDigests(e[2]) \cup InnerDigests(e[3])
+    [] e[1] = "wrap" -> InnerDigests(e[2])
+    [] OTHER -> {}
+Targets(e) == AllDigests(e) \cup {Absent} \cup InnerDigests(e)
 Actions == {<<"elide">>, <<"compress">>} \cup {<<"encrypt", k, FreshId>> : k \in Keys}
 ElideA == \E dst \in Reg, src \in Full : Call("elide", dst, <<src>>, Ok(ElideOne(reg[src])))
 ElideSetA ==
@@ -258,7 +268,8 @@ ForgeSignedA == \E dst \in Reg, src \in Full, kind \in ForgeKinds, s \in Signers
               \E s2 \in Signers \ {s} :
               Call("forge_signed", dst, <<src, kind, s, s2>>, Ok(ForgedSigned(reg[src], kind, s, s2, FreshId)))
 KeyLists == {<<a>> : a \in Signers} \cup {<<a, b>> : a \in Signers, b \in Signers}
-ObsVerify == \E src \in Full, keys \in KeyLists, th \in 0..3 :
+            \cup (IF Cardinality(Signers) >= 3 THEN {<<a, b, c>> : a \in Signers, b \in Signers, c \in Signers} ELSE {})
+ObsVerify == \E src \in Full, keys \in KeyLists, th \in 0..4 :
               /\ th <= Len(keys) + 1
               /\ Observe("obs_verify", <<src, keys, th>>,
                     [ each |-> [i \in 1..Len(keys) |-> HasSignatureFrom(reg[src], keys[i])],
